@@ -739,6 +739,27 @@ def ops_stream(ctx, n):
             for _ in range(ctx.n(1, 4)):
                 specs.append(gen_spec(ctx.rng, case, want=m, shared_tc=True))
                 ctx.count('specs_shared_time_constant')
+    # directed: after set-up, a flagged parameter of a device whose base differs from the system base is altered to the
+    # number currently shown in the OTHER representation (through the model and through the group, both attributes)
+    for case in CASES:
+        meta = case_meta(case)
+        for mname in sorted(meta):
+            ps = meta[mname]['params']
+            flagged = sorted(p for p in ps if ps[p]['kinds'] and p not in meta[mname]['roles'])
+            if not flagged or meta[mname]['n'] == 0:
+                continue
+            if ctx.rng.random() > (0.5 if not ctx.thorough else 1.0):
+                continue
+            p_ = ctx.rng.choice(flagged)
+            uid = ctx.rng.randrange(meta[mname]['n'])
+            ops = [{'op': 'S'}]
+            for g in (1, 0):
+                for same in ('v', 'vin'):
+                    ops.append({'op': 'A', 'p': p_, 'uid': uid, 'x': 0.0, 'attr': ctx.rng.choice(['v', 'v', 'i']), 'g': g, 'same': same})
+                    ops.append({'op': 'A', 'p': p_, 'uid': uid, 'x': round(ctx.rng.uniform(0.5, 9.0), 2), 'attr': 'v', 'g': g})
+            ops += [{'op': 'X'}, {'op': 'J'}]
+            specs.append({'stream': 'ops', 'case': case, 'model': mname, 'tracked': list(meta[mname]['roles']) + [p_], 'ops': ops})
+            ctx.count('specs_coinciding_values')
     check_specs(ctx, specs)
 
 
